@@ -232,7 +232,43 @@ def unit_route(U):
     C03.unit_route(U, prefix="C09.route")
 
 
-UNITS = [("route", unit_route), ("fresh", unit_fresh), ("prebuilt", unit_prebuilt), ("line.kv", _unit_line(("k=v", 'k="v"'))), ("line.sp", _unit_line(('k "v"', "k v"))), ("vote", unit_vote), ("window", unit_window)]
+def unit_bounded_reported_after_printing(U):
+    """Bounded: the dialect REPORTED (DataIterator.dialect, FeatureDB.dialect, a dialect dict supplied by the caller) is that of
+    the inspected window; writing features out as text - keep_order on or off, keys first seen beyond the window - does not
+    change it"""
+    fails, cases = [], 0
+    texts = {"gff3": "c\ts\tgene\t1\t9\t.\t+\t.\tID=g;Name=n\nc\ts\tmRNA\t1\t9\t.\t+\t.\tID=m;Name=n;Note=x;Alias=y\nc\ts\texon\t1\t9\t.\t+\t.\tID=e;Dbxref=d;Name=n\n",
+             "gtf": 'c\ts\texon\t1\t9\t.\t+\t.\tgene_id "g"; transcript_id "t";\nc\ts\texon\t11\t19\t.\t+\t.\tgene_id "g"; transcript_id "t"; exon_number "2"; note "x";\n'}
+    for name, text in texts.items():
+        for keep in (True, False):
+            cases += 1
+            it_ = gffutils.DataIterator(text, from_string=True, checklines=0)
+            before = {k: (list(v) if isinstance(v, list) else v) for k, v in it_.dialect.items()}
+            for f in it_:
+                f.keep_order = keep
+                str(f)
+            after = {k: (list(v) if isinstance(v, list) else v) for k, v in it_.dialect.items()}
+            if after != before:
+                fails.append({"case": {"format": name, "keep_order": keep, "checklines": 0, "source": "DataIterator"}, "expected": before, "observed": after})
+            cases += 1
+            db = gffutils.create_db(text, ":memory:", from_string=True, checklines=0, keep_order=keep)
+            before = {k: (list(v) if isinstance(v, list) else v) for k, v in db.dialect.items()}
+            for f in db.all_features():
+                str(f)
+            after = {k: (list(v) if isinstance(v, list) else v) for k, v in db.dialect.items()}
+            if after != before:
+                fails.append({"case": {"format": name, "keep_order": keep, "checklines": 0, "source": "FeatureDB"}, "expected": before, "observed": after})
+            cases += 1
+            mine = dict(before, order=list(before["order"]))
+            snap = dict(mine, order=list(mine["order"]))
+            for line in text.splitlines():
+                str(F.feature_from_line(line, dialect=mine, keep_order=keep))
+            if mine != snap:
+                fails.append({"case": {"format": name, "keep_order": keep, "source": "dialect dict supplied to feature_from_line"}, "expected": snap, "observed": mine})
+    U.bounded_result("C09.bounded.reported_after_printing", "printing features leaves the reported / supplied dialect (incl. its key order) as it was", "GFF3 and GTF text with keys first seen beyond the window x keep_order on/off x 3 sources", cases, fails)
+
+
+UNITS = [("bounded.reported_after_printing", unit_bounded_reported_after_printing), ("route", unit_route), ("fresh", unit_fresh), ("prebuilt", unit_prebuilt), ("line.kv", _unit_line(("k=v", 'k="v"'))), ("line.sp", _unit_line(('k "v"', "k v"))), ("vote", unit_vote), ("window", unit_window)]
 try:
     from standins import C09 as _S
     UNITS = UNITS + list(_S.UNITS)
